@@ -638,7 +638,10 @@ func (sc *SubCache[EntityT, ExcerptT, CacheT]) evictIfNeeded() {
 		return
 	}
 
-	for _, id := range sc.lru.GetOldestToNewest() {
+	// Never evict the most recently used entity: when called after loading or adding an entity, it
+	// is the one being handed to the caller (and all the older ones can have pending changes).
+	ids := sc.lru.GetOldestToNewest()
+	for _, id := range ids[:len(ids)-1] {
 		b := sc.cached[id]
 		if b.NeedCommit() {
 			continue
